@@ -351,8 +351,10 @@ def write_evidence(pid, tier, seed, prop, results, extra, wall, violations):
     cov.update({k: v for k, v in extra.items() if k not in ('exhaustive_done',)})
     ev = dict(property_id=pid, tier=tier, seed=seed, level='exploration', coverage=cov,
               assumptions=prop.get('assumptions', []), wall_s=round(wall, 2), violations=violations)
-    os.makedirs(os.path.join(VERIF, 'evidence'), exist_ok=True)
-    path = os.path.join(VERIF, 'evidence', pid + '.json')
+    # evidence/ describes /repo only; runs against a scratch tree (mutation sanity) write elsewhere
+    evdir = os.path.join(VERIF, 'evidence') if build.REPO == '/repo' else os.path.join(build.build_root(), 'evidence')
+    os.makedirs(evdir, exist_ok=True)
+    path = os.path.join(evdir, pid + '.json')
     tmp = path + '.tmp'
     json.dump(ev, open(tmp, 'w'), indent=1, sort_keys=True)
     os.replace(tmp, path)
